@@ -282,9 +282,15 @@ Definition gen_unary (fn x obs : Z) : bool :=
                         && (if ax <? 0x4008000000000000 then same_sign obs x && nonzero obs && (absb obs <=? ax) else true)
   else if fn =? 16 then negb (is_nan obs)
                         && (if ax <? one_bits then same_sign obs x && nonzero obs && (ax <=? absb obs) else true)
-  else if fn =? 7 then (* exp: positive; >= 1 for x > 0, <= 1 for x < 0 *)
+  else if fn =? 7 then (* exp: positive; >= 1 for x > 0, <= 1 for x < 0; overflows from
+    ln(2^1024) = 709.78..., vanishes below ln(2^-1075) = -745.13... *)
     negb (is_nan obs) && negb (sgnb obs)
     && (if sgnb x then obs <=? one_bits else one_bits <=? obs)
+    && (if sgnb x
+        then (if 0x4087500000000000 <=? ax then obs <=? 1 else true)       (* x <= -746 *)
+             && (if ax <=? 0x4087480000000000 then nonzero obs else true)  (* x >= -745 *)
+        else (if 0x4086300000000000 <=? ax then is_inf obs else true)      (* x >= 710 *)
+             && (if ax <=? 0x4086280000000000 then finite obs else true))  (* x <= 709 *)
   else if (fn =? 9) || (fn =? 26) || (fn =? 28) then (* log of a positive finite x <> 1 *)
     finite obs && nonzero obs && Bool.eqb (sgnb obs) (ax <? one_bits)
   else if fn =? 15 then (* sqrt: r >= 0 and r*r = x to 2^-50 *)
@@ -308,8 +314,124 @@ Definition gen_atan2 (y x obs : Z) : bool :=
   same_sign obs y && mag_le obs (PI_bits + 1)
   && (if sgnb x then PIO2_bits - 1 <=? absb obs else absb obs <=? PIO2_bits + 1).
 
-(* pow in the general regime: sign; side of 1; and for integer exponents up to
-   64 in magnitude the exact rational x^y to 2^-44 (when far from over/underflow) *)
+(* ----- exact oracle for integer and half-integer powers ----- *)
+(* m * 2^e with the factors of two moved into the exponent *)
+Fixpoint strip2 (fuel : nat) (m e : Z) : Z * Z :=
+  match fuel with
+  | O => (m, e)
+  | S f => if m =? 0 then (m, e) else if Z.even m then strip2 f (m / 2) (e + 1) else (m, e)
+  end.
+
+(* (multiplications and divisions by powers of two are shifts: Z.mul on two long
+   numbers is quadratic inside Coq) *)
+(* magnitude bits of N * 2^E (N > 0) rounded to nearest-even, subnormals and overflow included *)
+Definition rne_mag (N E : Z) : Z :=
+  let ve := Z.log2 N + E in
+  if 1024 <=? ve then pinf_bits else
+  let t := Z.max (ve - 52) (-1074) in
+  let q' :=
+    if t <=? E then Z.shiftl N (E - t)
+    else let sh := t - E in
+         let q := Z.shiftr N sh in let r := N - Z.shiftl q sh in let half := Z.shiftl 1 (sh - 1) in
+         if r <? half then q else if half <? r then q + 1 else if Z.even q then q else q + 1 in
+  Z.min pinf_bits ((t + 1074) * 2 ^ 52 + q').
+
+(* |obs| against the positive rational A / B: relative 2^-40, plus half a unit of
+   the subnormal grid (2^-1075) when obs is below 2^-958; an infinite obs is accepted
+   from the rounding threshold 2^1024 - 2^970 (less 2^-40) upwards *)
+Definition near_ratio (obs A B : Z) : bool :=
+  if is_inf obs then Z.shiftl B 1064 - Z.shiftl B 1010 <=? Z.shiftl A 40 + A
+  else match dy (absb obs) with
+       | Some (m, e) =>
+           if e <? -1011 then
+             Z.abs (Z.shiftl m (e + 1115) * B - Z.shiftl A 1115) <=? Z.shiftl A 1075 + Z.shiftl B 40
+           else
+             let '(lhs, rhs) := if 0 <=? e then (Z.shiftl (m * B) e, A) else (m * B, Z.shiftl A (- e)) in
+             Z.shiftl (Z.abs (lhs - rhs)) 40 <=? rhs
+       | None => false
+       end.
+
+(* |obs|^2 against A / B, same latitude (2^-39 on the square, 2^-1075 on obs) *)
+Definition near_sqrt_ratio (obs A B : Z) : bool :=
+  if is_inf obs then Z.shiftl (Z.shiftl B 39 - B) 2048 <=? Z.shiftl A 39
+  else match dy (absb obs) with
+       | Some (m, e) =>
+           if e <? -1011 then
+             let O := Z.shiftl m (e + 1075) in
+             let lo := Z.max (O - 1) 0 in
+             (Z.shiftl (Z.shiftl A 39 - A) 2150 <=? Z.shiftl ((O + 1) * (O + 1) * B) 39)
+             && (Z.shiftl (lo * lo * B) 39 <=? Z.shiftl (Z.shiftl A 39 + A) 2150)
+           else
+             let S := m * m in let se := 2 * e in
+             let '(lhs, rhs) := if 0 <=? se then (Z.shiftl (S * B) se, A) else (S * B, Z.shiftl A (- se)) in
+             Z.shiftl (Z.abs (lhs - rhs)) 39 <=? rhs
+       | None => false
+       end.
+
+(* 2y when it is an odd integer *)
+Definition half_int_of_bits (y : Z) : option Z :=
+  match decode y with
+  | DFin neg m e =>
+      let e1 := e + 1 in
+      if is_integral m e1 then
+        let n := trunc_mag m e1 in
+        if Z.odd n then Some (if neg then - n else n) else None
+      else None
+  | _ => None
+  end.
+
+Definition pow_budget : Z := 4000.
+
+(* x finite non-zero, y finite non-zero.  |x| = mo * 2^eo with mo odd.
+   - integer y = n: |x|^|n| = P * 2^E exactly (P = mo^|n|).  If P < 2^53 (and n >= 0,
+     or P = 1) every product of the square-and-multiply evaluation is exact, so the
+     result is the correctly rounded value: compared as a bit pattern, also in the
+     subnormal range and at the overflow boundary.  Otherwise [near_ratio].
+   - y = n/2, n odd, x > 0: the square of the result against the same rational.
+   Far outside the binary64 range only "infinite" / "zero" is asked. *)
+Definition pow_numeric (x y obs : Z) : bool :=
+  match dy (absb x) with
+  | None => true
+  | Some (mx, ex) =>
+      if mx =? 0 then true else
+      let '(mo, eo) := strip2 64 mx ex in
+      let bits := Z.log2 mo + 1 in
+      match int_of_bits y with
+      | Some n =>
+          let a := Z.abs n in
+          if (1 <? mo) && (pow_budget <? bits * a) then true else
+          let P := if mo =? 1 then 1 else mo ^ a in   (* Z.pow is linear in the exponent *) let E := eo * a in let L := Z.log2 P + E in
+          if 0 <=? n then
+            if 1025 <=? L then is_inf obs
+            else if L <? -1080 then absb obs =? 0
+            else if P <? 2 ^ 53 then absb obs =? rne_mag P E
+            else if 0 <=? E then near_ratio obs (Z.shiftl P E) 1 else near_ratio obs P (Z.shiftl 1 (- E))
+          else
+            if L <=? -1027 then is_inf obs
+            else if 1081 <? L then absb obs =? 0
+            else if P =? 1 then absb obs =? rne_mag 1 (- E)
+            else if 0 <=? E then near_ratio obs 1 (Z.shiftl P E) else near_ratio obs (Z.shiftl 1 (- E)) P
+      | None =>
+          match half_int_of_bits y with
+          | None => true
+          | Some n2 =>
+              if sgnb x then true else
+              let a := Z.abs n2 in
+              if (1 <? mo) && (pow_budget <? bits * a) then true else
+              let P := if mo =? 1 then 1 else mo ^ a in   (* Z.pow is linear in the exponent *) let E := eo * a in let L := Z.log2 P + E in
+              if 0 <=? n2 then
+                if 2052 <=? L then is_inf obs
+                else if L <? -2164 then absb obs =? 0
+                else if 0 <=? E then near_sqrt_ratio obs (Z.shiftl P E) 1 else near_sqrt_ratio obs P (Z.shiftl 1 (- E))
+              else
+                if L <=? -2054 then is_inf obs
+                else if 2164 <? L then absb obs =? 0
+                else if 0 <=? E then near_sqrt_ratio obs 1 (Z.shiftl P E) else near_sqrt_ratio obs (Z.shiftl 1 (- E)) P
+          end
+      end
+  end.
+
+(* pow in the general regime: sign; side of 1; and the exact oracle above *)
 Definition gen_pow (x y obs : Z) : bool :=
   let cy := classify y in
   let neg_res := sgnb x && is_odd_int cy in
@@ -318,17 +440,7 @@ Definition gen_pow (x y obs : Z) : bool :=
      (* |x| > 1, y > 0 or |x| < 1, y < 0 : |r| >= 1 ; otherwise |r| <= 1 *)
      if Bool.eqb (abs_gt1 (classify x)) (negb (sgnb y)) then one_bits - 2 <=? absb obs else absb obs <=? one_bits + 2
    else true) &&
-  match int_of_bits y, dy x with
-  | Some n, Some xd =>
-      if Z.abs n <=? 64 then
-        let p := pow_pos_dy (Z.to_nat (Z.abs n)) xd in
-        let l := dy_log2 p in
-        if (l <? 1000) && (-1000 <? l) then
-          if 0 <=? n then approx_bits 40 obs p else approx_ratio 40 obs dy_one p
-        else true
-      else true
-  | _, _ => true
-  end.
+  pow_numeric x y obs.
 
 (* ---------- the specification of one Math call ---------- *)
 Definition arg (l : list Z) (i : nat) : Z := nth i l nan_bits.   (* missing argument: ToNumber(undefined) *)
